@@ -6,48 +6,58 @@ Import ListNotations.
 Open Scope nat_scope.
 
 (* ---------- the two walk orders list exactly the expected hooks ---------- *)
-Lemma add_order_expected h k g : forall x, Permutation (add_order h k g x) (expected h k g x).
+Lemma flat_map_filter {A B} (F : A -> list B) (p : A -> bool) l :
+  flat_map F (filter p l) = flat_map (fun a => if p a then F a else []) l.
+Proof. induction l as [|a l IH]; cbn; [reflexivity|]. destruct (p a); cbn; rewrite IH; reflexivity. Qed.
+
+Lemma node_perm (t : traits) (h : heap) (k : hkey) (fs : list fname) (n : bool) (cs : list graph) (x : oid)
+      (W : graph -> oid -> list (oid * fname * kind)) :
+  (forall c, In c cs -> forall y, Permutation (W c y) (expected t h k c y)) ->
+  Permutation
+    (flat_map (fun f : fname => if n then [(x, f, KUser k)] else []) (obs_fields t x fs)
+     ++ flat_map (fun f : fname => map (fun c => (x, f, KMaint k c)) cs) (obs_fields t x fs)
+     ++ flat_map (fun c => flat_map (fun y => W c y) (next_objs t h x fs)) cs)
+    (flat_map (fun f => if t x f then
+                 own k n cs x f ++ flat_map (fun y => flat_map (fun c => expected t h k c y) cs) (h x f)
+               else []) fs).
 Proof.
-  induction g as [f n cs IH] using graph_ind'. intros x. rewrite Forall_forall in IH.
-  cbn [add_order expected]. do 2 apply Permutation_app_head.
-  rewrite (flat_map_swap (fun c y => add_order h k c y) cs (h x f)).
-  apply Permutation_flat_map_In. intros y _. apply Permutation_flat_map_In. intros c Hc. apply IH. exact Hc.
+  intros HW. unfold obs_fields, next_objs.
+  rewrite (flat_map_swap (fun c y => W c y) cs (flat_map (h x) (filter (t x) fs))).
+  rewrite (ffm (fun y => flat_map (fun c => W c y) cs) (h x) (filter (t x) fs)).
+  rewrite !flat_map_filter. rewrite !flat_map_plus.
+  apply Permutation_flat_map_In. intros f Hf. destruct (t x f); [|reflexivity].
+  unfold own. rewrite <- app_assoc. do 2 apply Permutation_app_head.
+  apply Permutation_flat_map_In. intros y _. apply Permutation_flat_map_In. intros c Hc. apply HW. exact Hc.
 Qed.
 
-Lemma rem_order_expected h k g : forall x, Permutation (rem_order h k g x) (expected h k g x).
+Lemma add_order_expected t h k g : forall x, Permutation (add_order t h k g x) (expected t h k g x).
 Proof.
-  induction g as [f n cs IH] using graph_ind'. intros x. rewrite Forall_forall in IH.
-  cbn [rem_order expected].
-  assert (Permutation (flat_map (fun c => flat_map (fun y => rem_order h k c y) (h x f)) cs)
-                      (flat_map (fun y => flat_map (fun c => expected h k c y) cs) (h x f))) as PA.
-  { rewrite (flat_map_swap (fun c y => rem_order h k c y) cs (h x f)).
-    apply Permutation_flat_map_In. intros y _. apply Permutation_flat_map_In. intros c Hc. apply IH. exact Hc. }
-  rewrite PA. etransitivity; [apply Permutation_app_comm|].
-  rewrite (app_assoc (if n then _ else _)).
-  apply Permutation_app_tail. apply Permutation_app_comm.
+  induction g as [fs n e cs IH] using graph_ind'. intros x. rewrite Forall_forall in IH.
+  cbn [add_order expected]. rewrite !app_assoc. rewrite Permutation_app_comm. apply Permutation_app_head.
+  rewrite <- !app_assoc. apply node_perm. exact IH.
+Qed.
+
+Lemma rem_order_expected t h k g : forall x, Permutation (rem_order t h k g x) (expected t h k g x).
+Proof.
+  induction g as [fs n e cs IH] using graph_ind'. intros x. rewrite Forall_forall in IH.
+  cbn [rem_order expected]. apply Permutation_app_head.
+  rewrite <- (node_perm t h k fs n cs x (fun c y => rem_order t h k c y) IH).
+  set (U := flat_map (fun f => if n then [(x, f, KUser k)] else []) (obs_fields t x fs)).
+  set (M := flat_map (fun f => map (fun c => (x, f, KMaint k c)) cs) (obs_fields t x fs)).
+  set (C := flat_map (fun c => flat_map (fun y => rem_order t h k c y) (next_objs t h x fs)) cs).
+  rewrite (Permutation_app_comm C). rewrite <- app_assoc. rewrite (Permutation_app_comm M).
+  rewrite <- app_assoc. apply Permutation_app_head. apply Permutation_app_comm.
 Qed.
 
 Lemma upd_other_slot h o f v x g : slot_eqb x g o f = false -> upd h o f v x g = h x g.
 Proof. intros E. unfold upd. rewrite E. reflexivity. Qed.
 
-Lemma sumexp_single h k c ys : sumexp h k [c] ys = flat_map (fun y => expected h k c y) ys.
-Proof. unfold sumexp. apply flat_map_ext_In. intros y _. cbn. apply app_nil_r. Qed.
-
-Lemma sumexp_cons h k c y ys : sumexp h k [c] (y :: ys) = expected h k c y ++ sumexp h k [c] ys.
+Lemma sumexp_cons t h k c y ys : sumexp t h k [c] (y :: ys) = expected t h k c y ++ sumexp t h k [c] ys.
 Proof. unfold sumexp. cbn [flat_map]. rewrite app_nil_r. reflexivity. Qed.
-Lemma sumexp_nil h k cs : sumexp h k cs [] = [].
+Lemma sumexp_nil t h k cs : sumexp t h k cs [] = [].
 Proof. reflexivity. Qed.
 
-Lemma sumexp_singletons h k cs ys :
-  Permutation (flat_map (fun c => sumexp h k [c] ys) cs) (sumexp h k cs ys).
-Proof.
-  unfold sumexp.
-  rewrite (flat_map_swap (fun c y => flat_map (fun c0 => expected h k c0 y) [c]) cs ys).
-  apply Permutation_flat_map_In. intros y _.
-  erewrite flat_map_ext_In; [reflexivity|]. intros c _. cbn [flat_map]. apply app_nil_r.
-Qed.
-
-Lemma add_objs_perm h k c ys : forall H, Permutation (add_objs h k c ys H) (H ++ sumexp h k [c] ys).
+Lemma add_objs_perm t h k c ys : forall H, Permutation (add_objs t h k c ys H) (H ++ sumexp t h k [c] ys).
 Proof.
   unfold add_objs. induction ys as [|y ys IH]; intros H; cbn [fold_left].
   - rewrite app_nil_r. reflexivity.
@@ -56,32 +66,34 @@ Proof.
     apply add_order_expected.
 Qed.
 
-Lemma rem_objs_complete h k c ys : forall H K,
-  Permutation H (K ++ sumexp h k [c] ys) ->
-  exists H1, rem_objs h k c ys H = (H1, true) /\ Permutation H1 K.
+Lemma rem_objs_complete t h k c ys : forall H K,
+  Permutation H (K ++ sumexp t h k [c] ys) ->
+  exists H1, rem_objs t h k c ys H = (H1, true) /\ Permutation H1 K.
 Proof.
   induction ys as [|y ys IH]; intros H K P; cbn [rem_objs].
   - exists H. split; [reflexivity|]. rewrite sumexp_nil, app_nil_r in P. exact P.
   - rewrite sumexp_cons in P.
-    destruct (remove_all_complete (rem_order h k c y) H (K ++ sumexp h k [c] ys)) as [H1 [E1 P1]].
+    destruct (remove_all_complete (rem_order t h k c y) H (K ++ sumexp t h k [c] ys)) as [H1 [E1 P1]].
     { rewrite P. rewrite <- app_assoc. apply Permutation_app_head.
       rewrite Permutation_app_comm. apply Permutation_app_head. symmetry. apply rem_order_expected. }
     rewrite E1. apply IH. exact P1.
 Qed.
 
-Lemma maintain_complete h strict k c rem add H K :
-  Permutation H (K ++ sumexp h k [c] rem) ->
-  exists H', maintain h strict k c rem add H = (H', true) /\ Permutation H' (K ++ sumexp h k [c] add).
+Lemma maintain_complete t h strict k c rem add H K :
+  Permutation H (K ++ sumexp t h k [c] rem) ->
+  exists H', maintain t h strict k c rem add H = (H', true) /\ Permutation H' (K ++ sumexp t h k [c] add).
 Proof.
-  intros P. unfold maintain. destruct (rem_objs_complete h k c rem H K P) as [H1 [E1 P1]].
+  intros P. unfold maintain. destruct (rem_objs_complete t h k c rem H K P) as [H1 [E1 P1]].
   rewrite E1. eexists. split; [reflexivity|]. rewrite add_objs_perm. apply Permutation_app_tail. exact P1.
 Qed.
 
 (* ---------- the notifier loop ---------- *)
 Definition maints_of (ns : list kind) : list (hkey * graph) :=
-  flat_map (fun kd => match kd with KMaint k c => [(k, c)] | KUser _ => [] end) ns.
+  flat_map (fun kd => match kd with KMaint k c => [(k, c)] | _ => [] end) ns.
 Definition users_of (ns : list kind) : list hkey :=
-  flat_map (fun kd => match kd with KUser k => [k] | KMaint _ _ => [] end) ns.
+  flat_map (fun kd => match kd with KUser k => [k] | _ => [] end) ns.
+Definition addeds_of (ns : list kind) : list (hkey * graph) :=
+  flat_map (fun kd => match kd with KAdded k g => [(k, g)] | _ => [] end) ns.
 
 Lemma maints_of_on_slot H o fo : maints_of (on_slot H o fo) = maint_on H o fo.
 Proof.
@@ -93,6 +105,11 @@ Proof.
   unfold users_of, on_slot, users_on. rewrite ffm. apply flat_map_ext_In. intros [[x f] kd] _.
   cbn. destruct (slot_eqb x f o fo); cbn; [|reflexivity]. destruct kd; cbn; reflexivity.
 Qed.
+Lemma addeds_of_on_slot H x0 : addeds_of (on_slot H x0 TA) = added_on H x0.
+Proof.
+  unfold addeds_of, on_slot, added_on. rewrite ffm. apply flat_map_ext_In. intros [[x f] kd] _.
+  cbn. destruct (slot_eqb x f x0 TA); cbn; [|reflexivity]. destruct kd; cbn; reflexivity.
+Qed.
 
 Lemma mem_key_In k l : mem_key k l = true <-> In k l.
 Proof.
@@ -100,17 +117,14 @@ Proof.
   rewrite orb_true_iff, hkey_eqb_spec, IH. split; intros [A|A]; auto.
 Qed.
 
-Lemma S_of_cons h kc M ys : S_of h (kc :: M) ys = sumexp h (fst kc) [snd kc] ys ++ S_of h M ys.
-Proof. reflexivity. Qed.
-
-Lemma notify_loop_spec h strict rem add : forall ns seen H K,
-  Permutation H (K ++ S_of h (maints_of ns) rem) ->
-  exists H' ks, notify_loop h strict ns seen rem add H = (H', ks, true)
-    /\ Permutation H' (K ++ S_of h (maints_of ns) add)
+Lemma notify_loop_spec t h strict rem add : forall ns seen H K,
+  Permutation H (K ++ S_of t h (maints_of ns) rem) ->
+  exists H' ks, notify_loop t h strict ns seen rem add H = (H', ks, true)
+    /\ Permutation H' (K ++ S_of t h (maints_of ns) add)
     /\ NoDup ks
     /\ (forall k, In k ks <-> In k (users_of ns) /\ ~ In k seen).
 Proof.
-  induction ns as [|[k|k c] ns IH]; intros seen H K P.
+  induction ns as [|[k|k c|k c] ns IH]; intros seen H K P.
   - exists H, []. cbn in *. split; [reflexivity|]. split; [exact P|]. split; [constructor|].
     intros k. tauto.
   - cbn [notify_loop]. cbn [maints_of users_of flat_map app] in *.
@@ -135,54 +149,66 @@ Proof.
            assert (hkey_eqb k0 k0 = true) by (apply hkey_eqb_spec; reflexivity). congruence.
   - cbn [notify_loop]. cbn [maints_of users_of flat_map app] in *.
     fold (maints_of ns) in *. fold (users_of ns) in *.
-    change (S_of h ((k, c) :: maints_of ns) rem) with (sumexp h k [c] rem ++ S_of h (maints_of ns) rem) in P.
-    destruct (maintain_complete h strict k c rem add H (K ++ S_of h (maints_of ns) rem)) as [H1 [E1 P1]].
+    change (S_of t h ((k, c) :: maints_of ns) rem) with (sumexp t h k [c] rem ++ S_of t h (maints_of ns) rem) in P.
+    destruct (maintain_complete t h strict k c rem add H (K ++ S_of t h (maints_of ns) rem)) as [H1 [E1 P1]].
     { rewrite P. rewrite <- app_assoc. apply Permutation_app_head. apply Permutation_app_comm. }
     rewrite E1.
-    destruct (IH seen H1 (K ++ sumexp h k [c] add)) as [H' [ks [E [PH [ND Sp]]]]].
+    destruct (IH seen H1 (K ++ sumexp t h k [c] add)) as [H' [ks [E [PH [ND Sp]]]]].
     { rewrite P1. rewrite <- !app_assoc. apply Permutation_app_head. apply Permutation_app_comm. }
     exists H', ks. split; [exact E|]. split; [|split; [exact ND|exact Sp]].
-    rewrite PH. change (S_of h ((k, c) :: maints_of ns) add) with (sumexp h k [c] add ++ S_of h (maints_of ns) add).
+    rewrite PH. change (S_of t h ((k, c) :: maints_of ns) add) with (sumexp t h k [c] add ++ S_of t h (maints_of ns) add).
     rewrite <- !app_assoc. reflexivity.
+  - cbn [notify_loop]. cbn [maints_of users_of flat_map app] in *.
+    fold (maints_of ns) in *. fold (users_of ns) in *. apply IH. exact P.
 Qed.
 
 (* ---------- what stays when the content of a slot is taken away ---------- *)
-Fixpoint skeleton (h : heap) (k : hkey) (g : graph) (x o : oid) (fo : fname) {struct g} : list hook :=
+Fixpoint skeleton (t : traits) (h : heap) (k : hkey) (g : graph) (x o : oid) (fo : fname) {struct g}
+  : list (oid * fname * kind) :=
   match g with
-  | G f n cs =>
-      (if n then [(x, f, KUser k)] else []) ++
-      map (fun c => (x, f, KMaint k c)) cs ++
-      (if slot_eqb x f o fo then []
-       else flat_map (fun y => flat_map (fun c => skeleton h k c y o fo) cs) (h x f))
+  | G fs n e cs =>
+      (if e then [(x, TA, KAdded k g)] else []) ++
+      flat_map (fun f =>
+        if t x f then
+          own k n cs x f ++
+          (if slot_eqb x f o fo then []
+           else flat_map (fun y => flat_map (fun c => skeleton t h k c y o fo) cs) (h x f))
+        else []) fs
   end.
 
-Lemma expected_split h k o fo g : forall x,
-  (forall c, In c (occ h g x o fo) -> forall y, In y (h o fo) -> visits h c y o fo = false) ->
-  Permutation (expected h k g x)
-              (skeleton h k g x o fo ++ flat_map (fun c => sumexp h k [c] (h o fo)) (occ h g x o fo)).
+Lemma expected_split t h k o fo g : forall x,
+  (forall c, In c (occ t h g x o fo) -> forall y, In y (h o fo) -> visits t h c y o fo = false) ->
+  Permutation (expected t h k g x)
+              (skeleton t h k g x o fo ++ flat_map (fun c => sumexp t h k [c] (h o fo)) (occ t h g x o fo)).
 Proof.
-  induction g as [f n cs IH] using graph_ind'. intros x acyc. rewrite Forall_forall in IH.
-  cbn [expected skeleton occ] in *.
+  induction g as [fs n e cs IH] using graph_ind'. intros x acyc. rewrite Forall_forall in IH.
+  cbn [expected skeleton occ] in *. rewrite <- app_assoc. apply Permutation_app_head.
+  rewrite interleave. apply Permutation_flat_map_In. intros f Hf.
+  assert (forall c, In c (if t x f then (if slot_eqb x f o fo then cs else []) ++
+                            flat_map (fun y => flat_map (fun c => occ t h c y o fo) cs) (h x f) else []) ->
+          forall y, In y (h o fo) -> visits t h c y o fo = false) as acycf.
+  { intros c Hc. apply acyc. apply in_flat_map. exists f. split; assumption. }
+  clear acyc. destruct (t x f); [|reflexivity].
   destruct (slot_eqb x f o fo) eqn:Hs.
   - apply slot_eqb_true in Hs. destruct Hs as [-> ->].
-    assert (flat_map (fun y => flat_map (fun c => occ h c y o fo) cs) (h o fo) = []) as Hb.
+    assert (flat_map (fun y => flat_map (fun c => occ t h c y o fo) cs) (h o fo) = []) as Hb.
     { apply flat_map_nil_In. intros y Hy. apply flat_map_nil_In. intros c Hc.
-      apply occ_nil_of_not_visits. apply acyc; [apply in_or_app; left; exact Hc|exact Hy]. }
-    rewrite Hb, !app_nil_r. rewrite <- !app_assoc. do 2 apply Permutation_app_head.
+      apply occ_nil_of_not_visits. apply acycf; [apply in_or_app; left; exact Hc|exact Hy]. }
+    rewrite Hb, !app_nil_r. rewrite <- ?app_assoc. apply Permutation_app_head.
     symmetry. apply sumexp_singletons.
-  - cbn [app]. rewrite <- !app_assoc. do 2 apply Permutation_app_head.
+  - cbn [app]. rewrite <- !app_assoc. apply Permutation_app_head.
     rewrite interleave. apply Permutation_flat_map_In. intros y Hy.
     rewrite interleave. apply Permutation_flat_map_In. intros c Hc.
-    apply IH; [exact Hc|]. intros c0 Hc0. apply acyc.
+    apply IH; [exact Hc|]. intros c0 Hc0. apply acycf.
     apply in_flat_map. exists y. split; [exact Hy|]. apply in_flat_map. exists c. split; assumption.
 Qed.
 
-Definition skeleton_all (h : heap) (rs : list reg) (o : oid) (fo : fname) : list hook :=
-  flat_map (fun r : reg => skeleton h (fst r) (snd r) (snd (fst r)) o fo) rs.
+Definition skeleton_all (t : traits) (h : heap) (rs : list reg) (o : oid) (fo : fname) : list (oid * fname * kind) :=
+  flat_map (fun r : reg => skeleton t h (fst r) (snd r) (snd (fst r)) o fo) rs.
 
-Lemma expected_split_all h rs o fo :
-  (forall kc, In kc (occ_all h rs o fo) -> forall y, In y (h o fo) -> visits h (snd kc) y o fo = false) ->
-  Permutation (expected_all h rs) (skeleton_all h rs o fo ++ S_of h (occ_all h rs o fo) (h o fo)).
+Lemma expected_split_all t h rs o fo :
+  (forall kc, In kc (occ_all t h rs o fo) -> forall y, In y (h o fo) -> visits t h (snd kc) y o fo = false) ->
+  Permutation (expected_all t h rs) (skeleton_all t h rs o fo ++ S_of t h (occ_all t h rs o fo) (h o fo)).
 Proof.
   intros acyc. unfold expected_all, skeleton_all, occ_all, S_of. rewrite interleave.
   apply Permutation_flat_map_In. intros [k g] Hr. unfold expected_reg, occ_reg. cbn [fst snd].
@@ -192,55 +218,55 @@ Proof.
 Qed.
 
 (* ---------- the invariant and one notified change ---------- *)
-Definition inv (st : state) : Prop := Permutation (st_hooks st) (expected_all (st_heap st) (st_regs st)).
+Definition inv (st : state) : Prop :=
+  Permutation (st_hooks st) (expected_all (st_traits st) (st_heap st) (st_regs st)).
 
-Definition edge_acyclic (h : heap) (rs : list reg) (o : oid) (fo : fname) (news : list oid) : Prop :=
-  forall kc, In kc (occ_all h rs o fo) -> forall y, In y (h o fo) \/ In y news -> visits h (snd kc) y o fo = false.
+(* the changed slot is not the trait_added event trait, and it is edge-acyclic for the registrations *)
+Definition edge_acyclic (t : traits) (h : heap) (rs : list reg) (o : oid) (fo : fname) (news : list oid) : Prop :=
+  fo <> TA /\
+  forall kc, In kc (occ_all t h rs o fo) -> forall y, In y (h o fo) \/ In y news -> visits t h (snd kc) y o fo = false.
 
-Lemma edge_acyclic_b_spec h rs o fo news : edge_acyclic_b h rs o fo news = true -> edge_acyclic h rs o fo news.
+Lemma edge_acyclic_b_spec t h rs o fo news :
+  edge_acyclic_b t h rs o fo news = true -> edge_acyclic t h rs o fo news.
 Proof.
-  unfold edge_acyclic_b, edge_acyclic. rewrite forallb_forall. intros A kc Hkc y Hy.
+  unfold edge_acyclic_b, edge_acyclic. rewrite andb_true_iff, forallb_forall. intros [N A].
+  split; [apply negb_true_iff in N; apply Nat.eqb_neq in N; exact N|].
+  intros kc Hkc y Hy.
   specialize (A kc Hkc). rewrite forallb_forall in A. specialize (A y).
   rewrite in_app_iff in A. apply negb_true_iff. apply A. exact Hy.
 Qed.
 
-Lemma matched_keys h rs o fo k :
-  In k (users_on (expected_all h rs) o fo) <->
-  exists g, In (k, g) rs /\ matched h g (snd k) o fo = true.
+Lemma matched_keys t h rs o fo k :
+  In k (users_on (expected_all t h rs) o fo) <->
+  exists g, In (k, g) rs /\ matched t h g (snd k) o fo = true.
 Proof.
   unfold users_on, expected_all. rewrite ffm. rewrite in_flat_map. split.
   - intros [[k' g] [Hr Hu]]. unfold expected_reg in Hu. cbn [fst snd] in Hu.
-    pose proof (users_on_expected_key h k' o fo g (snd k') k Hu) as ->.
-    exists g. split; [exact Hr|]. apply (users_on_expected h k' o fo g (snd k')). exists k'. exact Hu.
+    pose proof (users_on_expected_key t h k' o fo g (snd k') k Hu) as ->.
+    exists g. split; [exact Hr|]. apply (users_on_expected t h k' o fo g (snd k')). exists k'. exact Hu.
   - intros [g [Hr Hm]]. exists (k, g). split; [exact Hr|]. unfold expected_reg. cbn [fst snd].
-    apply (users_on_expected h k o fo g (snd k)) in Hm. destruct Hm as [u Hu].
-    pose proof (users_on_expected_key h k o fo g (snd k) u Hu) as ->. exact Hu.
+    apply (users_on_expected t h k o fo g (snd k)) in Hm. destruct Hm as [u Hu].
+    pose proof (users_on_expected_key t h k o fo g (snd k) u Hu) as ->. exact Hu.
 Qed.
 
 (* ---------- maintainers that cannot come back to the slot leave its notifier list alone ---------- *)
-Lemma hooks_on_visited h k g : forall x z fz kd,
-  In (z, fz, kd) (expected h k g x) -> visits h g x z fz = true.
+Lemma hooks_on_visited t h k g : forall x z fz kd,
+  In (z, fz, kd) (expected t h k g x) -> visits t h g x z fz = true \/ fz = TA.
 Proof.
-  induction g as [f n cs IH] using graph_ind'. intros x z fz kd I. rewrite Forall_forall in IH.
-  cbn [expected visits] in *. apply orb_true_iff. apply in_app_or in I. destruct I as [I|I].
-  - left. destruct n; [|destruct I]. destruct I as [E|[]]. inversion E. apply slot_eqb_refl.
-  - apply in_app_or in I. destruct I as [I|I].
-    + left. apply in_map_iff in I. destruct I as [c [E _]]. inversion E. apply slot_eqb_refl.
-    + right. apply in_flat_map in I. destruct I as [y [Hy I]]. apply in_flat_map in I. destruct I as [c [Hc I]].
-      apply existsb_exists. exists y. split; [exact Hy|]. apply existsb_exists. exists c. split; [exact Hc|].
-      apply (IH c Hc y z fz kd I).
-Qed.
-
-Lemma visits_frame h g o fo v : forall x,
-  visits h g x o fo = false -> visits (upd h o fo v) g x o fo = false.
-Proof.
-  induction g as [f n cs IH] using graph_ind'. intros x V. rewrite Forall_forall in IH.
-  cbn [visits] in *. apply orb_false_iff in V. destruct V as [V1 V2]. rewrite V1. cbn [orb].
-  rewrite (upd_other_slot h o fo v x f V1).
-  apply not_true_is_false. intros Q.
-  apply existsb_exists in Q. destruct Q as [y [Hy Q]]. apply existsb_exists in Q. destruct Q as [c [Hc Q]].
-  pose proof (existsb_false_In _ _ V2 y Hy) as E. cbv beta in E. pose proof (existsb_false_In _ _ E c Hc) as E2.
-  rewrite (IH c Hc y E2) in Q. discriminate.
+  induction g as [fs n e cs IH] using graph_ind'. intros x z fz kd I. rewrite Forall_forall in IH.
+  cbn [expected] in I. apply in_app_or in I. destruct I as [I|I].
+  - right. destruct e; [|destruct I]. destruct I as [E|[]]. inversion E. reflexivity.
+  - apply in_flat_map in I. destruct I as [f [Hf I]]. destruct (t x f) eqn:Tf; [|destruct I].
+    apply in_app_or in I. destruct I as [I|I].
+    + left. cbn [visits]. apply existsb_exists. exists f. split; [exact Hf|]. rewrite Tf. cbn [andb].
+      apply orb_true_iff. left. unfold own in I. apply in_app_or in I. destruct I as [I|I].
+      * destruct n; [|destruct I]. destruct I as [E|[]]. inversion E. apply slot_eqb_refl.
+      * apply in_map_iff in I. destruct I as [c [E _]]. inversion E. apply slot_eqb_refl.
+    + apply in_flat_map in I. destruct I as [y [Hy I]]. apply in_flat_map in I. destruct I as [c [Hc I]].
+      destruct (IH c Hc y z fz kd I) as [V|V]; [left|right; exact V].
+      cbn [visits]. apply existsb_exists. exists f. split; [exact Hf|]. rewrite Tf. cbn [andb].
+      apply orb_true_iff. right. apply existsb_exists. exists y. split; [exact Hy|].
+      apply existsb_exists. exists c. split; [exact Hc|exact V].
 Qed.
 
 Definition off_slot (o : oid) (fo : fname) (A : list (oid * fname * kind)) : Prop :=
@@ -270,121 +296,127 @@ Proof.
   apply (on_slot_remove1 x H H1 o fo); [|exact E1]. destruct x as [[z fz] kd]. apply (O z fz kd). left. reflexivity.
 Qed.
 
-Lemma expected_off_slot h k c y o fo : visits h c y o fo = false -> off_slot o fo (expected h k c y).
+Lemma expected_off_slot t h k c y o fo :
+  fo <> TA -> visits t h c y o fo = false -> off_slot o fo (expected t h k c y).
 Proof.
-  intros V z fz kd I. destruct (slot_eqb z fz o fo) eqn:Q; [exfalso|reflexivity].
-  apply slot_eqb_true in Q. destruct Q as [-> ->]. apply hooks_on_visited in I. congruence.
+  intros NT V z fz kd I. destruct (slot_eqb z fz o fo) eqn:Q; [exfalso|reflexivity].
+  apply slot_eqb_true in Q. destruct Q as [-> ->]. apply hooks_on_visited in I. destruct I; congruence.
 Qed.
 Lemma off_slot_perm o fo A B : Permutation A B -> off_slot o fo B -> off_slot o fo A.
 Proof. intros P O z fz kd I. apply (O z fz kd). apply (Permutation_in _ P). exact I. Qed.
 
-Lemma add_objs_on_slot h k c ys o fo : (forall y, In y ys -> visits h c y o fo = false) ->
-  forall H, on_slot (add_objs h k c ys H) o fo = on_slot H o fo.
+Lemma add_objs_on_slot t h k c ys o fo : fo <> TA -> (forall y, In y ys -> visits t h c y o fo = false) ->
+  forall H, on_slot (add_objs t h k c ys H) o fo = on_slot H o fo.
 Proof.
-  unfold add_objs. induction ys as [|y ys IH]; intros V H; cbn [fold_left]; [reflexivity|].
+  intros NT. unfold add_objs. induction ys as [|y ys IH]; intros V H; cbn [fold_left]; [reflexivity|].
   rewrite IH by (intros y' I; apply V; right; exact I). rewrite on_slot_app.
-  rewrite (on_slot_off (add_order h k c y)); [apply app_nil_r|].
-  apply (off_slot_perm _ _ _ _ (add_order_expected h k c y)). apply expected_off_slot. apply V. left. reflexivity.
+  rewrite (on_slot_off (add_order t h k c y)); [apply app_nil_r|].
+  apply (off_slot_perm _ _ _ _ (add_order_expected t h k c y)). apply expected_off_slot; [exact NT|].
+  apply V. left. reflexivity.
 Qed.
-Lemma rem_objs_on_slot h k c ys o fo : (forall y, In y ys -> visits h c y o fo = false) ->
-  forall H, on_slot (fst (rem_objs h k c ys H)) o fo = on_slot H o fo.
+Lemma rem_objs_on_slot t h k c ys o fo : fo <> TA -> (forall y, In y ys -> visits t h c y o fo = false) ->
+  forall H, on_slot (fst (rem_objs t h k c ys H)) o fo = on_slot H o fo.
 Proof.
-  induction ys as [|y ys IH]; intros V H; cbn [rem_objs]; [reflexivity|].
-  destruct (remove_all (rem_order h k c y) H) as [H1|] eqn:E; [|reflexivity].
+  intros NT. induction ys as [|y ys IH]; intros V H; cbn [rem_objs]; [reflexivity|].
+  destruct (remove_all (rem_order t h k c y) H) as [H1|] eqn:E; [|reflexivity].
   rewrite IH by (intros y' I; apply V; right; exact I).
-  apply (on_slot_remove_all (rem_order h k c y) o fo); [|exact E].
-  apply (off_slot_perm _ _ _ _ (rem_order_expected h k c y)). apply expected_off_slot. apply V. left. reflexivity.
+  apply (on_slot_remove_all (rem_order t h k c y) o fo); [|exact E].
+  apply (off_slot_perm _ _ _ _ (rem_order_expected t h k c y)). apply expected_off_slot; [exact NT|].
+  apply V. left. reflexivity.
 Qed.
-Lemma maintain_on_slot h strict k c rem add o fo :
-  (forall y, In y rem \/ In y add -> visits h c y o fo = false) ->
-  forall H, on_slot (fst (maintain h strict k c rem add H)) o fo = on_slot H o fo.
+Lemma maintain_on_slot t h strict k c rem add o fo : fo <> TA ->
+  (forall y, In y rem \/ In y add -> visits t h c y o fo = false) ->
+  forall H, on_slot (fst (maintain t h strict k c rem add H)) o fo = on_slot H o fo.
 Proof.
-  intros V H. unfold maintain.
-  pose proof (rem_objs_on_slot h k c rem o fo (fun y I => V y (or_introl I)) H) as R.
-  destruct (rem_objs h k c rem H) as [H1 ok]. cbn [fst] in R.
-  destruct ok; [|destruct strict]; cbn [fst]; rewrite ?add_objs_on_slot by (intros y I; apply V; right; exact I);
-    exact R.
+  intros NT V H. unfold maintain.
+  pose proof (rem_objs_on_slot t h k c rem o fo NT (fun y I => V y (or_introl I)) H) as R.
+  destruct (rem_objs t h k c rem H) as [H1 ok]. cbn [fst] in R.
+  destruct ok; [|destruct strict]; cbn [fst];
+    rewrite ?add_objs_on_slot by (try exact NT; intros y I; apply V; right; exact I); exact R.
 Qed.
-Lemma notify_loop_on_slot h strict rem add o fo : forall ns seen H,
-  (forall kc y, In kc (maints_of ns) -> In y rem \/ In y add -> visits h (snd kc) y o fo = false) ->
-  on_slot (fst (fst (notify_loop h strict ns seen rem add H))) o fo = on_slot H o fo.
+Lemma notify_loop_on_slot t h strict rem add o fo : fo <> TA -> forall ns seen H,
+  (forall kc y, In kc (maints_of ns) -> In y rem \/ In y add -> visits t h (snd kc) y o fo = false) ->
+  on_slot (fst (fst (notify_loop t h strict ns seen rem add H))) o fo = on_slot H o fo.
 Proof.
-  induction ns as [|[k|k c] ns IH]; intros seen H V; cbn [notify_loop]; [reflexivity| |].
+  intros NT. induction ns as [|[k|k c|k c] ns IH]; intros seen H V; cbn [notify_loop]; [reflexivity| | |].
   - destruct (mem_key k seen).
     + apply IH. exact V.
-    + specialize (IH (k :: seen) H V). destruct (notify_loop h strict ns (k :: seen) rem add H) as [[H' ks] ok].
+    + specialize (IH (k :: seen) H V). destruct (notify_loop t h strict ns (k :: seen) rem add H) as [[H' ks] ok].
       exact IH.
-  - pose proof (maintain_on_slot h strict k c rem add o fo
+  - pose proof (maintain_on_slot t h strict k c rem add o fo NT
                   (fun y I => V (k, c) y (or_introl eq_refl) I) H) as M.
-    destruct (maintain h strict k c rem add H) as [H1 ok]. cbn [fst] in M. destruct ok; [|exact M].
+    destruct (maintain t h strict k c rem add H) as [H1 ok]. cbn [fst] in M. destruct ok; [|exact M].
     rewrite IH; [exact M|]. intros kc y I. apply V. right. exact I.
+  - apply IH. exact V.
 Qed.
 
 Section Change.
   Variables (st : state) (o : oid) (fo : fname) (news removed added keep : list oid) (prevented strict : bool).
   Let h := st_heap st.
+  Let t := st_traits st.
   Let rs := st_regs st.
   Hypothesis Hinv : inv st.
   Hypothesis Hold : Permutation (h o fo) (keep ++ removed).
   Hypothesis Hnew : Permutation news (keep ++ added).
-  Hypothesis Hacyc : edge_acyclic h rs o fo news.
+  Hypothesis Hacyc : edge_acyclic t h rs o fo news.
 
   Lemma change_spec :
     exists H' ks,
       change st o fo news removed added prevented strict =
-        (mkState (upd h o fo news) H' rs (st_next st),
+        (mkState t (upd h o fo news) H' rs (st_next st),
          mkObs Ok (if prevented then [] else map (fun k => (k, o, fo, removed, added)) ks) [(o, fo, news)])
-      /\ Permutation H' (expected_all (upd h o fo news) rs)
+      /\ Permutation H' (expected_all t (upd h o fo news) rs)
       /\ NoDup ks
-      /\ (forall k, In k ks <-> exists g, In (k, g) rs /\ matched h g (snd k) o fo = true).
+      /\ (forall k, In k ks <-> exists g, In (k, g) rs /\ matched t h g (snd k) o fo = true).
   Proof.
+    destruct Hacyc as [NT Hac].
     set (H := st_hooks st). set (h' := upd h o fo news).
-    assert (Permutation H (expected_all h rs)) as HI by exact Hinv.
-    set (M := maint_on H o fo). set (O := occ_all h rs o fo).
+    assert (Permutation H (expected_all t h rs)) as HI by exact Hinv.
+    set (M := maint_on H o fo). set (O := occ_all t h rs o fo).
     assert (Permutation M O) as MO.
     { subst M O. rewrite <- maint_on_expected_all. unfold maint_on. apply flat_map_perm. exact HI. }
     assert (forall kc, In kc M -> In kc O) as MinO by (intros kc; apply Permutation_in; exact MO).
-    assert (forall ys, (forall y, In y ys -> In y (h o fo) \/ In y news) -> S_of h' M ys = S_of h M ys) as FR.
+    assert (forall ys, (forall y, In y ys -> In y (h o fo) \/ In y news) -> S_of t h' M ys = S_of t h M ys) as FR.
     { intros ys Hy. unfold S_of. apply flat_map_ext_In. intros kc Hkc. unfold sumexp.
       apply flat_map_ext_In. intros y Iy. cbn [flat_map]. f_equal.
-      apply expected_frame. apply Hacyc; [apply MinO; exact Hkc|apply Hy; exact Iy]. }
+      apply expected_frame. apply Hac; [apply MinO; exact Hkc|apply Hy; exact Iy]. }
     assert (forall y, In y removed -> In y (h o fo)) as RinO.
     { intros y Iy. apply (Permutation_in y (Permutation_sym Hold)). apply in_or_app. right. exact Iy. }
     assert (forall y, In y added -> In y news) as AinN.
     { intros y Iy. apply (Permutation_in y (Permutation_sym Hnew)). apply in_or_app. right. exact Iy. }
     (* the hooks split into what stays and what hangs below the removed objects *)
-    set (K := skeleton_all h rs o fo ++ S_of h O keep).
-    assert (Permutation H (K ++ S_of h' M removed)) as SPLIT.
+    set (K := skeleton_all t h rs o fo ++ S_of t h O keep).
+    assert (Permutation H (K ++ S_of t h' M removed)) as SPLIT.
     { rewrite (FR removed) by (intros y Iy; left; apply RinO; exact Iy).
-      rewrite (S_of_perm_M h M O removed MO). subst K. rewrite HI.
-      rewrite (expected_split_all h rs o fo).
-      - fold O. rewrite (S_of_perm_ys h O _ _ Hold). rewrite S_of_app. rewrite app_assoc. reflexivity.
-      - intros kc Hkc y Hy. apply Hacyc; [exact Hkc|left; exact Hy]. }
-    assert (Permutation H (K ++ S_of h' (maints_of (on_slot H o fo)) removed)) as SPLIT'
+      rewrite (S_of_perm_M t h M O removed MO). subst K. rewrite HI.
+      rewrite (expected_split_all t h rs o fo).
+      - fold O. rewrite (S_of_perm_ys t h O _ _ Hold). rewrite S_of_app. rewrite app_assoc. reflexivity.
+      - intros kc Hkc y Hy. apply Hac; [exact Hkc|left; exact Hy]. }
+    assert (Permutation H (K ++ S_of t h' (maints_of (on_slot H o fo)) removed)) as SPLIT'
       by (rewrite maints_of_on_slot; exact SPLIT).
-    unfold change. fold h. fold h'. fold H.
-    destruct (notify_loop_spec h' strict removed added (on_slot H o fo) [] H K SPLIT')
+    unfold change. fold h. fold t. fold h'. fold H.
+    destruct (notify_loop_spec t h' strict removed added (on_slot H o fo) [] H K SPLIT')
       as [H' [ks [E [PH [ND Sp]]]]].
     rewrite E.
     (* the live-iteration round is empty: the maintainers did not touch this slot's list *)
     assert (on_slot H' o fo = on_slot H o fo) as SAME.
-    { pose proof (notify_loop_on_slot h' strict removed added o fo (on_slot H o fo) [] H) as L.
+    { pose proof (notify_loop_on_slot t h' strict removed added o fo NT (on_slot H o fo) [] H) as L.
       rewrite E in L. cbn [fst] in L. apply L. intros kc y Ikc Iy. apply visits_frame.
-      apply Hacyc; [apply MinO; unfold M; rewrite <- maints_of_on_slot; exact Ikc|].
+      apply Hac; [apply MinO; unfold M; rewrite <- maints_of_on_slot; exact Ikc|].
       destruct Iy as [Iy|Iy]; [left; apply RinO; exact Iy|right; apply AinN; exact Iy]. }
     rewrite SAME, skipn_all.
     replace (if strict && true then @nil kind else []) with (@nil kind) by (destruct strict; reflexivity).
     cbn [notify_loop andb]. rewrite app_nil_r.
     exists H', ks. split; [reflexivity|]. rewrite (maints_of_on_slot H o fo) in PH. fold M in PH.
     split; [|split; [exact ND|]].
-    - apply (inv_preserved_all h rs o fo news removed added) with (H := H).
+    - apply (inv_preserved_all t h rs o fo news removed added) with (H := H).
       + rewrite Hnew, Hold. rewrite <- !app_assoc. apply Permutation_app_head. apply Permutation_app_comm.
       + intros y Iy. apply RinO. exact Iy.
       + intros y Iy. apply AinN. exact Iy.
-      + exact Hacyc.
+      + exact Hac.
       + exact HI.
       + fold h' M. rewrite PH. rewrite SPLIT. rewrite <- !app_assoc. apply Permutation_app_head. apply Permutation_app_comm.
-    - intros k. rewrite Sp. rewrite users_of_on_slot. rewrite <- (matched_keys h rs o fo k).
+    - intros k. rewrite Sp. rewrite users_of_on_slot. rewrite <- (matched_keys t h rs o fo k).
       split.
       + intros [I _]. unfold users_on in *. apply in_flat_map in I. destruct I as [hk [Ihk Iu]].
         apply in_flat_map. exists hk. split; [|exact Iu]. apply (Permutation_in hk HI). exact Ihk.
@@ -392,7 +424,6 @@ Section Change.
         apply in_flat_map. exists hk. split; [|exact Iu]. apply (Permutation_in hk (Permutation_sym HI)). exact Ihk.
   Qed.
 End Change.
-
 (* ---------- one operation ---------- *)
 Lemma reg_eqb_spec a b : reg_eqb a b = true <-> a = b.
 Proof.
@@ -412,7 +443,7 @@ Definition step_ok (st : state) (o : op) : Prop :=
   | Some (x, f) =>
       NoDup (map call_key (ob_calls ob))
       /\ (forall k, In k (map call_key (ob_calls ob)) <->
-                    exists g, In (k, g) (st_regs st) /\ matched (st_heap st) g (snd k) x f = true)
+                    exists g, In (k, g) (st_regs st) /\ matched (st_traits st) (st_heap st) g (snd k) x f = true)
       /\ (forall c, In c (ob_calls ob) -> call_slot c = (x, f))
   end.
 
@@ -431,11 +462,11 @@ Proof.
   - cbn. intros E. rewrite perm_swap. apply perm_skip. apply IH. exact E.
 Qed.
 
-Lemma expected_all_perm h rs rs' : Permutation rs rs' -> Permutation (expected_all h rs) (expected_all h rs').
+Lemma expected_all_perm t h rs rs' : Permutation rs rs' -> Permutation (expected_all t h rs) (expected_all t h rs').
 Proof. apply flat_map_perm. Qed.
 
-Lemma expected_all_fresh h rs c fc items :
-  fresh_b h rs c fc = true -> expected_all (upd h c fc items) rs = expected_all h rs.
+Lemma expected_all_fresh t h rs c fc items :
+  fresh_b t h rs c fc = true -> expected_all t (upd h c fc items) rs = expected_all t h rs.
 Proof.
   unfold fresh_b. rewrite forallb_forall. intros F. unfold expected_all. apply flat_map_ext_In.
   intros r Hr. unfold expected_reg. apply expected_frame. apply negb_true_iff. apply F. exact Hr.
@@ -449,13 +480,13 @@ Lemma change_ok st o fo news removed added keep prevented strict :
   inv st ->
   Permutation (st_heap st o fo) (keep ++ removed) ->
   Permutation news (keep ++ added) ->
-  edge_acyclic (st_heap st) (st_regs st) o fo news ->
+  edge_acyclic (st_traits st) (st_heap st) (st_regs st) o fo news ->
   let '(st', ob) := change st o fo news removed added prevented strict in
   inv st' /\ ob_out ob = Ok /\ st_regs st' = st_regs st /\ st_heap st' = upd (st_heap st) o fo news /\
   (if prevented then ob_calls ob = []
    else NoDup (map call_key (ob_calls ob))
         /\ (forall k, In k (map call_key (ob_calls ob)) <->
-                      exists g, In (k, g) (st_regs st) /\ matched (st_heap st) g (snd k) o fo = true)
+                      exists g, In (k, g) (st_regs st) /\ matched (st_traits st) (st_heap st) g (snd k) o fo = true)
         /\ (forall c, In c (ob_calls ob) -> call_slot c = (o, fo))).
 Proof.
   intros Hinv Hold Hnew Hacyc.
@@ -488,39 +519,80 @@ Qed.
 Lemma observe_all_spec k r : forall gs st, inv st ->
   inv (fold_left (fun s g => observe1 s k r g) gs st)
   /\ st_heap (fold_left (fun s g => observe1 s k r g) gs st) = st_heap st
-  /\ st_regs (fold_left (fun s g => observe1 s k r g) gs st) = st_regs st ++ map (pair (k, r)) gs.
+  /\ st_regs (fold_left (fun s g => observe1 s k r g) gs st) = st_regs st ++ map (pair (k, r)) gs
+  /\ st_traits (fold_left (fun s g => observe1 s k r g) gs st) = st_traits st.
 Proof.
   induction gs as [|g gs IH]; intros st I; cbn [fold_left map].
   - rewrite app_nil_r. tauto.
-  - destruct (IH (observe1 st k r g) (observe1_inv st k r g I)) as [A [B C]].
-    split; [exact A|]. split; [rewrite B; reflexivity|]. rewrite C. cbn [observe1 st_regs].
+  - destruct (IH (observe1 st k r g) (observe1_inv st k r g I)) as [A [B [C D]]].
+    split; [exact A|]. split; [rewrite B; reflexivity|]. split; [|rewrite D; reflexivity]. rewrite C. cbn [observe1 st_regs].
     rewrite <- app_assoc. reflexivity.
 Qed.
 
 Lemma unobserve1_spec st k r g : inv st -> existsb (reg_eqb ((k, r), g)) (st_regs st) = true ->
   exists st', unobserve1 st k r g = Some st' /\ inv st' /\ st_heap st' = st_heap st
-              /\ st_regs st' = remove_reg ((k, r), g) (st_regs st).
+              /\ st_regs st' = remove_reg ((k, r), g) (st_regs st) /\ st_traits st' = st_traits st.
 Proof.
   intros Hinv Hyp. pose proof (remove_reg_perm _ _ Hyp) as PR.
-  destruct (remove_all_complete (rem_order (st_heap st) (k, r) g r) (st_hooks st)
-              (expected_all (st_heap st) (remove_reg (k, r, g) (st_regs st)))) as [H' [E PH]].
-  { unfold inv in Hinv. rewrite Hinv. rewrite (expected_all_perm _ _ _ PR).
-    unfold expected_all at 1. cbn [flat_map]. fold (expected_all (st_heap st) (remove_reg (k, r, g) (st_regs st))).
+  destruct (remove_all_complete (rem_order (st_traits st) (st_heap st) (k, r) g r) (st_hooks st)
+              (expected_all (st_traits st) (st_heap st) (remove_reg (k, r, g) (st_regs st)))) as [H' [E PH]].
+  { unfold inv in Hinv. rewrite Hinv. rewrite (expected_all_perm _ _ _ _ PR).
+    unfold expected_all at 1. cbn [flat_map]. fold (expected_all (st_traits st) (st_heap st) (remove_reg (k, r, g) (st_regs st))).
     rewrite Permutation_app_comm. apply Permutation_app_head.
     unfold expected_reg. cbn [fst snd]. symmetry. apply rem_order_expected. }
-  unfold unobserve1. rewrite E. eexists. split; [reflexivity|]. split; [exact PH|]. split; reflexivity.
+  unfold unobserve1. rewrite E. eexists. split; [reflexivity|]. split; [exact PH|]. split; [reflexivity|split; reflexivity].
 Qed.
 
 Lemma unobserve_all_spec k r : forall gs st, inv st -> regs_present k r gs (st_regs st) = true ->
   exists st', unobserve_all st k r gs = Some st' /\ inv st' /\ st_heap st' = st_heap st
-              /\ st_regs st' = fold_left (fun rs g => remove_reg ((k, r), g) rs) gs (st_regs st).
+              /\ st_regs st' = fold_left (fun rs g => remove_reg ((k, r), g) rs) gs (st_regs st)
+              /\ st_traits st' = st_traits st.
 Proof.
   induction gs as [|g gs IH]; intros st I P; cbn [unobserve_all regs_present fold_left] in *.
   - exists st. tauto.
   - apply andb_true_iff in P. destruct P as [P1 P2].
-    destruct (unobserve1_spec st k r g I P1) as [st1 [E [I1 [H1 R1]]]]. rewrite E.
-    rewrite <- R1 in P2. destruct (IH st1 I1 P2) as [st' [E' [I' [H' R']]]].
-    exists st'. split; [exact E'|]. split; [exact I'|]. split; [congruence|]. rewrite R', R1. reflexivity.
+    destruct (unobserve1_spec st k r g I P1) as [st1 [E [I1 [H1 [R1 T1]]]]]. rewrite E.
+    rewrite <- R1 in P2. destruct (IH st1 I1 P2) as [st' [E' [I' [H' [R' T']]]]].
+    exists st'. split; [exact E'|]. split; [exact I'|]. split; [congruence|]. split; [|congruence]. rewrite R', R1. reflexivity.
+Qed.
+
+Lemma restricted_add_own t h k g x f : h x f = [] -> restricted_add t h k g x f = own_for k x f g.
+Proof.
+  intros E. destruct g as [fs n e cs]. cbn [restricted_add own_for]. apply flat_map_ext_In. intros f' _.
+  destruct (Nat.eqb f' f); [|reflexivity]. rewrite E. unfold own. rewrite app_assoc.
+  rewrite (flat_map_nil_In (fun c : graph => flat_map (fun y => add_order t h k c y) []) cs) by reflexivity.
+  apply app_nil_r.
+Qed.
+
+Lemma added_loop_spec t h x f : h x f = [] -> forall ns seen H,
+  exists ks, added_loop t h x f ns seen H
+             = (H ++ flat_map (fun kg => own_for (fst kg) x f (snd kg)) (addeds_of ns), ks)
+    /\ NoDup ks /\ (forall k, In k ks <-> In k (users_of ns) /\ ~ In k seen).
+Proof.
+  intros Nv. induction ns as [|[k|k c|k g] ns IH]; intros seen H.
+  - exists []. cbn. rewrite app_nil_r. split; [reflexivity|]. split; [constructor|]. intros k. tauto.
+  - cbn [added_loop]. cbn [addeds_of users_of flat_map app]. fold (addeds_of ns). fold (users_of ns).
+    destruct (mem_key k seen) eqn:Ms.
+    + destruct (IH seen H) as [ks [E [ND Sp]]]. exists ks. split; [exact E|]. split; [exact ND|].
+      intros k0. rewrite Sp. split.
+      * intros [I NS]. split; [right; exact I|exact NS].
+      * intros [[<-|I] NS]; [apply mem_key_In in Ms; contradiction|split; assumption].
+    + destruct (IH (k :: seen) H) as [ks [E [ND Sp]]]. rewrite E. exists (k :: ks).
+      split; [reflexivity|]. split.
+      * constructor; [|exact ND]. intros I. apply Sp in I. destruct I as [_ I]. apply I. left. reflexivity.
+      * intros k0. split.
+        -- intros [<-|I].
+           { split; [left; reflexivity|]. intros I. apply mem_key_In in I. congruence. }
+           apply Sp in I. destruct I as [I NS]. split; [right; exact I|]. intros I2. apply NS. right. exact I2.
+        -- intros [[<-|I] NS]; [left; reflexivity|].
+           destruct (hkey_eqb k k0) eqn:Q; [apply hkey_eqb_spec in Q; left; exact Q|].
+           right. apply Sp. split; [exact I|]. intros [->|I2]; [|contradiction].
+           assert (hkey_eqb k0 k0 = true) by (apply hkey_eqb_spec; reflexivity). congruence.
+  - cbn [added_loop]. cbn [addeds_of users_of flat_map app]. fold (addeds_of ns). fold (users_of ns). apply IH.
+  - cbn [added_loop]. cbn [addeds_of users_of flat_map app]. fold (addeds_of ns). fold (users_of ns).
+    rewrite (restricted_add_own t h k g x f Nv).
+    destruct (IH seen (H ++ own_for k x f g)) as [ks [E [ND Sp]]]. exists ks. split; [|split; assumption].
+    rewrite E. cbn [fst snd]. rewrite <- app_assoc. reflexivity.
 Qed.
 
 Lemma splice_delta l i n vs : Permutation (splice l i n vs ++ spliced_out l i n) (l ++ vs).
@@ -532,8 +604,25 @@ Qed.
 
 Lemma step_spec st o : inv st -> op_hyp st o = true -> step_ok st o.
 Proof.
-  intros Hinv Hyp. unfold step_ok. destruct o as [k r g|k r g|k r gs|k r gs|x f v|x f items de|x f|c f i n vs|x];
+  intros Hinv Hyp. unfold step_ok. destruct o as [k r g|k r g|k r gs|k r gs|x f v|x f items de|x f|c f i n vs|x|x f];
     cbn [step notified op_hyp] in *.
+  10: { (* AddTrait *)
+    apply andb_true_iff in Hyp. destruct Hyp as [Hyp W]. apply andb_true_iff in Hyp. destruct Hyp as [Nt Nv].
+    apply negb_true_iff in Nt. rewrite Nt.
+    assert (st_heap st x f = []) as Nv' by (destruct (st_heap st x f); [reflexivity|discriminate]).
+    destruct (added_loop_spec (add_trait (st_traits st) x f) (st_heap st) x f Nv'
+                (on_slot (st_hooks st) x TA) [] (st_hooks st)) as [ks [E [ND Sp]]].
+    rewrite E. cbn [ob_out ob_calls]. split; [|split; [reflexivity|]].
+    - unfold inv. cbn [st_hooks st_traits st_heap st_regs]. rewrite addeds_of_on_slot.
+      apply inv_add_trait_all; assumption.
+    - rewrite map_call_key. split; [exact ND|]. split.
+      + intros k. rewrite Sp. rewrite users_of_on_slot.
+        rewrite <- (matched_keys (st_traits st) (st_heap st) (st_regs st) x TA k). split.
+        * intros [I _]. unfold users_on in *. apply in_flat_map in I. destruct I as [hk [Ihk Iu]].
+          apply in_flat_map. exists hk. split; [|exact Iu]. apply (Permutation_in hk Hinv). exact Ihk.
+        * intros I. split; [|intros []]. unfold users_on in *. apply in_flat_map in I. destruct I as [hk [Ihk Iu]].
+          apply in_flat_map. exists hk. split; [|exact Iu]. apply (Permutation_in hk (Permutation_sym Hinv)). exact Ihk.
+      + intros c Hc. apply in_map_iff in Hc. destruct Hc as [k [<- _]]. reflexivity. }
   3: { destruct (observe_all_spec k r gs st Hinv) as [A _]. split; [exact A|]. split; reflexivity. }
   3: { destruct (unobserve_all_spec k r gs st Hinv Hyp) as [st' [E [I' _]]]. rewrite E.
        split; [exact I'|]. split; reflexivity. }
@@ -543,10 +632,10 @@ Proof.
     apply Permutation_app; [exact Hinv|]. apply add_order_expected.
   - (* Unobserve *)
     pose proof (remove_reg_perm _ _ Hyp) as PR.
-    destruct (remove_all_complete (rem_order (st_heap st) (k, r) g r) (st_hooks st)
-                (expected_all (st_heap st) (remove_reg (k, r, g) (st_regs st)))) as [H' [E PH]].
-    { unfold inv in Hinv. rewrite Hinv. rewrite (expected_all_perm _ _ _ PR).
-      unfold expected_all at 1. cbn [flat_map]. fold (expected_all (st_heap st) (remove_reg (k, r, g) (st_regs st))).
+    destruct (remove_all_complete (rem_order (st_traits st) (st_heap st) (k, r) g r) (st_hooks st)
+                (expected_all (st_traits st) (st_heap st) (remove_reg (k, r, g) (st_regs st)))) as [H' [E PH]].
+    { unfold inv in Hinv. rewrite Hinv. rewrite (expected_all_perm _ _ _ _ PR).
+      unfold expected_all at 1. cbn [flat_map]. fold (expected_all (st_traits st) (st_heap st) (remove_reg (k, r, g) (st_regs st))).
       rewrite Permutation_app_comm. apply Permutation_app_head.
       unfold expected_reg. cbn [fst snd]. symmetry. apply rem_order_expected. }
     rewrite E. split; [exact PH|]. split; reflexivity.
@@ -554,15 +643,15 @@ Proof.
     destruct (list_eqb (st_heap st x f) v) eqn:Q.
     + cbn. split; [exact Hinv|]. split; reflexivity.
     + pose proof (change_ok st x f v (st_heap st x f) v [] false false Hinv) as C.
-      cbn [app] in C. specialize (C (Permutation_refl _) (Permutation_refl _) (edge_acyclic_b_spec _ _ _ _ _ Hyp)).
+      cbn [app] in C. specialize (C (Permutation_refl _) (Permutation_refl _) (edge_acyclic_b_spec _ _ _ _ _ _ Hyp)).
       destruct (change st x f v (st_heap st x f) v false false) as [st' ob].
       destruct C as [I [O [_ [_ Cs]]]]. split; [exact I|]. split; [exact O|]. exact Cs.
   - (* SetCont *)
     apply andb_true_iff in Hyp. destruct Hyp as [Fr Ac].
     set (c := st_next st) in *. set (fc := items_field f) in *.
-    set (st1 := mkState (upd (st_heap st) c fc items) (st_hooks st) (st_regs st) (S c)).
+    set (st1 := mkState (st_traits st) (upd (st_heap st) c fc items) (st_hooks st) (st_regs st) (S c)).
     assert (inv st1) as I1.
-    { unfold inv, st1. cbn [st_hooks st_heap st_regs]. rewrite (expected_all_fresh _ _ _ _ _ Fr). exact Hinv. }
+    { unfold inv, st1. cbn [st_hooks st_heap st_regs]. rewrite (expected_all_fresh _ _ _ _ _ _ Fr). exact Hinv. }
     assert (st_heap st1 x f = st_heap st x f) as SL.
     { unfold st1. cbn [st_heap]. unfold upd. unfold slot_eqb.
       replace (Nat.eqb f fc) with false; [rewrite andb_false_r; reflexivity|].
@@ -570,7 +659,7 @@ Proof.
     match goal with |- context [change st1 x f [c] ?olds [c] ?p false] =>
       pose proof (change_ok st1 x f [c] olds [c] [] p false I1) as C; set (prevented := p) in * end.
     cbn [app] in C. rewrite SL in C.
-    specialize (C (Permutation_refl _) (Permutation_refl _) (edge_acyclic_b_spec _ _ _ _ _ Ac)).
+    specialize (C (Permutation_refl _) (Permutation_refl _) (edge_acyclic_b_spec _ _ _ _ _ _ Ac)).
     destruct (change st1 x f [c] (st_heap st x f) [c] prevented false) as [st' ob].
     destruct C as [I [O [_ [_ Cs]]]]. cbn [ob_out ob_calls]. split; [exact I|]. split; [exact O|].
     destruct prevented; [exact Cs|].
@@ -583,10 +672,10 @@ Proof.
       apply negb_true_iff. apply (Fr (k0, g0) Hr).
   - (* Touch *)
     destruct (st_heap st x f) eqn:Q.
-    + set (st1 := mkState (st_heap st) (st_hooks st) (st_regs st) (S (st_next st))).
+    + set (st1 := mkState (st_traits st) (st_heap st) (st_hooks st) (st_regs st) (S (st_next st))).
       pose proof (change_ok st1 x f [st_next st] [] [st_next st] [] true false Hinv) as C.
       cbn [app st_heap st1] in C. rewrite Q in C.
-      assert (edge_acyclic (st_heap st) (st_regs st) x f [st_next st]) as A by (apply edge_acyclic_b_spec; exact Hyp).
+      assert (edge_acyclic (st_traits st) (st_heap st) (st_regs st) x f [st_next st]) as A by (apply edge_acyclic_b_spec; exact Hyp).
       specialize (C (Permutation_refl _) (Permutation_refl _) A).
       destruct (change st1 x f [st_next st] [] [st_next st] true false) as [st' ob].
       destruct C as [I [O [_ [_ Cs]]]]. split; [exact I|]. split; [exact O|]. exact Cs.
@@ -596,14 +685,14 @@ Proof.
     + cbn. split; [exact Hinv|]. split; reflexivity.
     + pose proof (change_ok st c f (splice (st_heap st c f) i n vs) (spliced_out (st_heap st c f) i n) vs
                    (firstn i (st_heap st c f) ++ skipn n (skipn i (st_heap st c f))) false true Hinv
-                   (splice_old _ _ _) (splice_new _ _ _ _) (edge_acyclic_b_spec _ _ _ _ _ Hyp)) as C.
+                   (splice_old _ _ _) (splice_new _ _ _ _) (edge_acyclic_b_spec _ _ _ _ _ _ Hyp)) as C.
       destruct (change st c f (splice (st_heap st c f) i n vs) (spliced_out (st_heap st c f) i n) vs false true)
         as [st' ob].
       destruct C as [I [O [_ [_ Cs]]]]. split; [exact I|]. split; [exact O|]. exact Cs.
   - (* Probe *)
     pose proof (change_ok st x 0 (st_heap st x 0) [] [] (st_heap st x 0) false false Hinv) as C.
     rewrite app_nil_r in C.
-    specialize (C (Permutation_refl _) (Permutation_refl _) (edge_acyclic_b_spec _ _ _ _ _ Hyp)).
+    specialize (C (Permutation_refl _) (Permutation_refl _) (edge_acyclic_b_spec _ _ _ _ _ _ Hyp)).
     destruct (change st x 0 (st_heap st x 0) [] [] false false) as [st' ob].
     destruct C as [I [O [_ [_ Cs]]]]. split; [exact I|]. split; [exact O|]. exact Cs.
 Qed.
@@ -647,7 +736,7 @@ Qed.
 
 (* reference counts are path multiplicities *)
 Lemma refcount_is_multiplicity st (eq_dec : forall a b : oid * fname * kind, {a = b} + {a <> b}) hk :
-  inv st -> count_occ eq_dec (st_hooks st) hk = count_occ eq_dec (expected_all (st_heap st) (st_regs st)) hk.
+  inv st -> count_occ eq_dec (st_hooks st) hk = count_occ eq_dec (expected_all (st_traits st) (st_heap st) (st_regs st)) hk.
 Proof. intros I. apply Permutation_count_occ. exact I. Qed.
 
 (* ---------- the boolean law holds on every history of the model ---------- *)
@@ -674,8 +763,8 @@ Proof.
   apply negb_true_iff. destruct (mem_key a l) eqn:M; [apply mem_key_In in M; contradiction|reflexivity].
 Qed.
 
-Lemma expect_keys_In rs h x f k :
-  In k (expect_keys rs h x f) <-> exists g, In (k, g) rs /\ matched h g (snd k) x f = true.
+Lemma expect_keys_In rs t h x f k :
+  In k (expect_keys rs t h x f) <-> exists g, In (k, g) rs /\ matched t h g (snd k) x f = true.
 Proof.
   unfold expect_keys. rewrite nodup_keys_In, in_map_iff. split.
   - intros [[k' g] [E I]]. cbn in E. subst k'. apply filter_In in I. exists g. exact I.
@@ -688,32 +777,32 @@ Proof.
   apply IH. intros b I. apply H. right. exact I.
 Qed.
 
-Lemma law_step_from_facts hb rs o ob x f :
+Lemma law_step_from_facts t hb rs o ob x f :
   op_slot o = Some (x, f) ->
   ob_out ob = Ok ->
   NoDup (map call_key (ob_calls ob)) ->
-  (forall k, In k (map call_key (ob_calls ob)) -> exists g, In (k, g) rs /\ matched hb g (snd k) x f = true) ->
-  (classify hb (apply_delta hb (ob_delta ob)) o = Exact ->
-   forall k g, In (k, g) rs -> matched hb g (snd k) x f = true -> In k (map call_key (ob_calls ob))) ->
-  (classify hb (apply_delta hb (ob_delta ob)) o = NoChange -> ob_calls ob = []) ->
+  (forall k, In k (map call_key (ob_calls ob)) -> exists g, In (k, g) rs /\ matched t hb g (snd k) x f = true) ->
+  (classify t hb (apply_delta hb (ob_delta ob)) o = Exact ->
+   forall k g, In (k, g) rs -> matched t hb g (snd k) x f = true -> In k (map call_key (ob_calls ob))) ->
+  (classify t hb (apply_delta hb (ob_delta ob)) o = NoChange -> ob_calls ob = []) ->
   forallb (call_ok hb (apply_delta hb (ob_delta ob)) o x f) (ob_calls ob) = true ->
-  law_step hb rs o ob = [].
+  law_step t hb rs o ob = [].
 Proof.
   intros SL OK ND SUB EX NC CO. unfold law_step. rewrite SL.
   set (keys := map call_key (ob_calls ob)) in *.
-  assert (filter (fun k => negb (mem_key k (expect_keys rs hb x f))) keys = []) as BAD.
+  assert (filter (fun k => negb (mem_key k (expect_keys rs t hb x f))) keys = []) as BAD.
   { apply filter_nil. intros k I. apply negb_false_iff. apply mem_key_In. apply expect_keys_In. apply SUB. exact I. }
   rewrite BAD. cbn [forallb]. rewrite OK. cbn [is_ok]. rewrite (nodup_b_of_NoDup _ ND). rewrite CO.
   cbn [chk app].
-  assert (match classify hb (apply_delta hb (ob_delta ob)) o with
-          | Exact => forallb (fun k => mem_key k keys) (expect_keys rs hb x f) | _ => true end = true) as C1.
-  { destruct (classify hb (apply_delta hb (ob_delta ob)) o) eqn:E; try reflexivity.
+  assert (match classify t hb (apply_delta hb (ob_delta ob)) o with
+          | Exact => forallb (fun k => mem_key k keys) (expect_keys rs t hb x f) | _ => true end = true) as C1.
+  { destruct (classify t hb (apply_delta hb (ob_delta ob)) o) eqn:E; try reflexivity.
     apply forallb_forall. intros k I. apply mem_key_In. apply expect_keys_In in I. destruct I as [g [Hr Hm]].
     apply (EX eq_refl k g Hr Hm). }
   rewrite C1.
-  assert (match classify hb (apply_delta hb (ob_delta ob)) o with
-          | NoChange => forallb (fun k => negb (mem_key k (expect_keys rs hb x f))) keys | _ => true end = true) as C7.
-  { destruct (classify hb (apply_delta hb (ob_delta ob)) o) eqn:E; try reflexivity.
+  assert (match classify t hb (apply_delta hb (ob_delta ob)) o with
+          | NoChange => forallb (fun k => negb (mem_key k (expect_keys rs t hb x f))) keys | _ => true end = true) as C7.
+  { destruct (classify t hb (apply_delta hb (ob_delta ob)) o) eqn:E; try reflexivity.
     unfold keys. rewrite (NC eq_refl). reflexivity. }
   rewrite C7. reflexivity.
 Qed.
@@ -729,21 +818,22 @@ Proof. intros P. apply forallb_forall. intros c I. apply in_map_iff in I. destru
 Lemma change_law st o0 o fo news removed added keep prevented strict :
   inv st ->
   Permutation (st_heap st o fo) (keep ++ removed) -> Permutation news (keep ++ added) ->
-  edge_acyclic (st_heap st) (st_regs st) o fo news ->
+  edge_acyclic (st_traits st) (st_heap st) (st_regs st) o fo news ->
   op_slot o0 = Some (o, fo) ->
-  (prevented = true -> classify (st_heap st) (upd (st_heap st) o fo news) o0 = NoChange) ->
-  (prevented = false -> classify (st_heap st) (upd (st_heap st) o fo news) o0 <> NoChange) ->
+  (prevented = true -> classify (st_traits st) (st_heap st) (upd (st_heap st) o fo news) o0 = NoChange) ->
+  (prevented = false -> classify (st_traits st) (st_heap st) (upd (st_heap st) o fo news) o0 <> NoChange) ->
   (forall k, call_ok (st_heap st) (upd (st_heap st) o fo news) o0 o fo (k, o, fo, removed, added) = true) ->
-  law_step (st_heap st) (st_regs st) o0 (snd (change st o fo news removed added prevented strict)) = []
+  law_step (st_traits st) (st_heap st) (st_regs st) o0 (snd (change st o fo news removed added prevented strict)) = []
   /\ apply_delta (st_heap st) (ob_delta (snd (change st o fo news removed added prevented strict)))
      = st_heap (fst (change st o fo news removed added prevented strict))
-  /\ st_regs (fst (change st o fo news removed added prevented strict)) = st_regs st.
+  /\ st_regs (fst (change st o fo news removed added prevented strict)) = st_regs st
+  /\ st_traits (fst (change st o fo news removed added prevented strict)) = st_traits st.
 Proof.
   intros Hinv Hold Hnew Hacyc SL P1 P2 CO.
   destruct (change_spec st o fo news removed added keep prevented strict Hinv Hold Hnew Hacyc)
     as [H' [ks [E [PH [ND Sp]]]]].
-  rewrite E. cbn [fst snd st_heap st_regs ob_delta]. split; [|split; reflexivity].
-  apply (law_step_from_facts _ _ _ _ o fo SL); cbn [ob_out ob_calls ob_delta apply_delta fold_left].
+  rewrite E. cbn [fst snd st_heap st_regs st_traits ob_delta]. split; [|split; [reflexivity|split; reflexivity]].
+  apply (law_step_from_facts _ _ _ _ _ o fo SL); cbn [ob_out ob_calls ob_delta apply_delta fold_left].
   - reflexivity.
   - destruct prevented; [constructor|]. rewrite map_call_key. exact ND.
   - destruct prevented; [intros k []|]. rewrite map_call_key. intros k I. apply Sp. exact I.
@@ -756,10 +846,10 @@ Qed.
 
 Lemma quiet_law st o0 x f :
   op_slot o0 = Some (x, f) ->
-  classify (st_heap st) (st_heap st) o0 <> Exact ->
-  law_step (st_heap st) (st_regs st) o0 (mkObs Ok [] []) = [].
+  classify (st_traits st) (st_heap st) (st_heap st) o0 <> Exact ->
+  law_step (st_traits st) (st_heap st) (st_regs st) o0 (mkObs Ok [] []) = [].
 Proof.
-  intros SL NE. apply (law_step_from_facts _ _ _ _ x f SL); cbn; try reflexivity; try constructor.
+  intros SL NE. apply (law_step_from_facts _ _ _ _ _ x f SL); cbn; try reflexivity; try constructor.
   - intros k [].
   - intros E. contradiction.
 Qed.
@@ -768,44 +858,70 @@ Lemma upd_other h o f v x g : slot_eqb x g o f = false -> upd h o f v x g = h x 
 Proof. intros E. unfold upd. rewrite E. reflexivity. Qed.
 
 Lemma step_law st o : inv st -> op_hyp st o = true ->
-  law_step (st_heap st) (st_regs st) o (snd (step st o)) = []
+  law_step (st_traits st) (st_heap st) (st_regs st) o (snd (step st o)) = []
   /\ apply_delta (st_heap st) (ob_delta (snd (step st o))) = st_heap (fst (step st o))
-  /\ law_regs (st_regs st) o (snd (step st o)) = st_regs (fst (step st o)).
+  /\ law_regs (st_regs st) o (snd (step st o)) = st_regs (fst (step st o))
+  /\ law_traits (st_traits st) o (snd (step st o)) = st_traits (fst (step st o)).
 Proof.
-  intros Hinv Hyp. destruct o as [k r g|k r g|k r gs|k r gs|x f v|x f items de|x f|c f i n vs|x];
+  intros Hinv Hyp. destruct o as [k r g|k r g|k r gs|k r gs|x f v|x f items de|x f|c f i n vs|x|x f];
     cbn [step op_hyp] in *.
-  3: { destruct (observe_all_spec k r gs st Hinv) as [_ [B C]]. cbn [fst snd ob_delta ob_out law_regs].
-       split; [reflexivity|]. split; [cbn; symmetry; exact B|symmetry; exact C]. }
-  3: { destruct (unobserve_all_spec k r gs st Hinv Hyp) as [st' [E [_ [B C]]]]. rewrite E.
-       cbn [fst snd ob_delta ob_out law_regs]. split; [reflexivity|]. split; [cbn; symmetry; exact B|symmetry; exact C]. }
+  10: { (* AddTrait *)
+    apply andb_true_iff in Hyp. destruct Hyp as [Hyp W]. apply andb_true_iff in Hyp. destruct Hyp as [Nt Nv].
+    apply negb_true_iff in Nt. rewrite Nt.
+    assert (st_heap st x f = []) as Nv' by (destruct (st_heap st x f); [reflexivity|discriminate]).
+    destruct (added_loop_spec (add_trait (st_traits st) x f) (st_heap st) x f Nv'
+                (on_slot (st_hooks st) x TA) [] (st_hooks st)) as [ks [E [ND Sp]]].
+    rewrite E. cbn [fst snd ob_delta ob_out st_heap st_regs st_traits apply_delta fold_left law_regs law_traits].
+    rewrite Nt. split; [|split; [reflexivity|split; reflexivity]].
+    assert (forall k, In k ks <-> exists g, In (k, g) (st_regs st)
+                                  /\ matched (st_traits st) (st_heap st) g (snd k) x TA = true) as Sp'.
+    { intros k. rewrite Sp. rewrite users_of_on_slot.
+      rewrite <- (matched_keys (st_traits st) (st_heap st) (st_regs st) x TA k). split.
+      - intros [I _]. unfold users_on in *. apply in_flat_map in I. destruct I as [hk [Ihk Iu]].
+        apply in_flat_map. exists hk. split; [|exact Iu]. apply (Permutation_in hk Hinv). exact Ihk.
+      - intros I. split; [|intros []]. unfold users_on in *. apply in_flat_map in I. destruct I as [hk [Ihk Iu]].
+        apply in_flat_map. exists hk. split; [|exact Iu]. apply (Permutation_in hk (Permutation_sym Hinv)). exact Ihk. }
+    apply (law_step_from_facts (st_traits st) (st_heap st) (st_regs st) (AddTrait x f) _ x TA eq_refl);
+      cbn [ob_out ob_calls ob_delta apply_delta fold_left]; rewrite ?map_call_key.
+    - reflexivity.
+    - exact ND.
+    - intros k I. apply Sp'. exact I.
+    - intros _ k g Hr Hm. apply Sp'. exists g. tauto.
+    - cbn [classify]. rewrite Nt. discriminate.
+    - apply forallb_map_calls. intros k. cbn [call_ok]. rewrite !Nat.eqb_refl. reflexivity. }
+  3: { destruct (observe_all_spec k r gs st Hinv) as [_ [B [C D]]]. cbn [fst snd ob_delta ob_out law_regs law_traits].
+       split; [reflexivity|]. split; [cbn; symmetry; exact B|]. split; symmetry; assumption. }
+  3: { destruct (unobserve_all_spec k r gs st Hinv Hyp) as [st' [E [_ [B [C D]]]]]. rewrite E.
+       cbn [fst snd ob_delta ob_out law_regs law_traits]. split; [reflexivity|]. split; [cbn; symmetry; exact B|].
+       split; symmetry; assumption. }
   - (* Observe *) cbn. repeat split; reflexivity.
   - (* Unobserve *)
     pose proof (remove_reg_perm _ _ Hyp) as PR.
-    destruct (remove_all_complete (rem_order (st_heap st) (k, r) g r) (st_hooks st)
-                (expected_all (st_heap st) (remove_reg (k, r, g) (st_regs st)))) as [H' [E PH]].
-    { unfold inv in Hinv. rewrite Hinv. rewrite (expected_all_perm _ _ _ PR).
-      unfold expected_all at 1. cbn [flat_map]. fold (expected_all (st_heap st) (remove_reg (k, r, g) (st_regs st))).
+    destruct (remove_all_complete (rem_order (st_traits st) (st_heap st) (k, r) g r) (st_hooks st)
+                (expected_all (st_traits st) (st_heap st) (remove_reg (k, r, g) (st_regs st)))) as [H' [E PH]].
+    { unfold inv in Hinv. rewrite Hinv. rewrite (expected_all_perm _ _ _ _ PR).
+      unfold expected_all at 1. cbn [flat_map]. fold (expected_all (st_traits st) (st_heap st) (remove_reg (k, r, g) (st_regs st))).
       rewrite Permutation_app_comm. apply Permutation_app_head.
       unfold expected_reg. cbn [fst snd]. symmetry. apply rem_order_expected. }
     rewrite E. cbn. repeat split; reflexivity.
   - (* SetRef *)
     destruct (list_eqb (st_heap st x f) v) eqn:Q.
-    + cbn [quiet fst snd ob_delta apply_delta fold_left law_regs ob_out]. split; [|split; reflexivity].
+    + cbn [quiet fst snd ob_delta apply_delta fold_left law_regs law_traits ob_out]. split; [|split; [reflexivity|split; reflexivity]].
       apply (quiet_law st _ x f); [reflexivity|]. cbn [classify]. rewrite list_eqb_refl. discriminate.
     + pose proof (change_law st (SetRef x f v) x f v (st_heap st x f) v [] false false Hinv
-                    (Permutation_refl _) (Permutation_refl _) (edge_acyclic_b_spec _ _ _ _ _ Hyp) eq_refl) as C.
-      destruct C as [L [D RG]].
+                    (Permutation_refl _) (Permutation_refl _) (edge_acyclic_b_spec _ _ _ _ _ _ Hyp) eq_refl) as C.
+      destruct C as [L [D [RG TR]]].
       * discriminate.
       * intros _. cbn [classify]. rewrite upd_same, Q. discriminate.
       * intros k0. cbn [call_ok]. rewrite !Nat.eqb_refl. cbn [andb]. rewrite upd_same.
         rewrite !perm_eqb_of_perm; reflexivity.
-      * split; [exact L|]. split; [exact D|]. cbn [law_regs]. rewrite RG. reflexivity.
+      * split; [exact L|]. split; [exact D|]. split; [cbn [law_regs]; rewrite RG; reflexivity|cbn [law_traits]; rewrite TR; reflexivity].
   - (* SetCont *)
     apply andb_true_iff in Hyp. destruct Hyp as [Fr Ac].
     set (c := st_next st) in *. set (fc := items_field f) in *. set (h := st_heap st) in *.
-    set (st1 := mkState (upd h c fc items) (st_hooks st) (st_regs st) (S c)).
+    set (st1 := mkState (st_traits st) (upd h c fc items) (st_hooks st) (st_regs st) (S c)).
     assert (inv st1) as I1.
-    { unfold inv, st1. cbn [st_hooks st_heap st_regs]. rewrite (expected_all_fresh _ _ _ _ _ Fr). exact Hinv. }
+    { unfold inv, st1. cbn [st_hooks st_heap st_regs]. rewrite (expected_all_fresh _ _ _ _ _ _ Fr). exact Hinv. }
     assert (slot_eqb x f c fc = false) as NE1.
     { unfold slot_eqb. replace (Nat.eqb f fc) with false; [apply andb_false_r|].
       symmetry. apply Nat.eqb_neq. unfold fc, items_field. lia. }
@@ -814,21 +930,21 @@ Proof.
       symmetry. apply Nat.eqb_neq. unfold fc, items_field. lia. }
     assert (st_heap st1 x f = h x f) as SL by (unfold st1; cbn [st_heap]; apply upd_other; exact NE1).
     match goal with |- context [change st1 x f [c] ?olds [c] ?p false] => set (prevented := p) in * end.
-    assert (edge_acyclic (st_heap st1) (st_regs st1) x f [c]) as Ac' by (apply edge_acyclic_b_spec; exact Ac).
+    assert (edge_acyclic (st_traits st1) (st_heap st1) (st_regs st1) x f [c]) as Ac' by (apply edge_acyclic_b_spec; exact Ac).
     assert (Permutation (st_heap st1 x f) ([] ++ h x f)) as Ho by (rewrite SL; reflexivity).
     destruct (change_spec st1 x f [c] (h x f) [c] [] prevented false I1 Ho (Permutation_refl _) Ac')
       as [H' [ks [E [PH [ND Sp]]]]].
     rewrite E. cbn [fst snd st_heap st_regs ob_delta ob_out ob_calls st1].
     set (ha := upd (upd h c fc items) x f [c]).
     assert (apply_delta h [(c, fc, items); (x, f, [c])] = ha) as AD by reflexivity.
-    split; [|split; [exact AD|reflexivity]].
+    split; [|split; [exact AD|split; reflexivity]].
     assert (ha x f = [c]) as HA1 by (unfold ha; apply upd_same).
     assert (ha c fc = items) as HA2 by (unfold ha; rewrite (upd_other _ _ _ _ _ _ NE2); apply upd_same).
-    assert (classify h ha (SetCont x f items de) = if prevented then NoChange else Exact) as CL.
+    assert (classify (st_traits st) h ha (SetCont x f items de) = if prevented then NoChange else Exact) as CL.
     { cbn [classify]. rewrite HA1. change (items_field f) with fc. rewrite HA2.
       unfold prevented. destruct (h x f) as [|y ys]; [|reflexivity].
       destruct items; reflexivity. }
-    apply (law_step_from_facts h (st_regs st) (SetCont x f items de) _ x f eq_refl);
+    apply (law_step_from_facts (st_traits st) h (st_regs st) (SetCont x f items de) _ x f eq_refl);
       cbn [ob_out ob_calls ob_delta]; rewrite ?AD.
     + reflexivity.
     + destruct prevented; [constructor|]. rewrite map_call_key. exact ND.
@@ -844,48 +960,48 @@ Proof.
       rewrite !Nat.eqb_refl. cbn [andb]. rewrite HA1. rewrite !perm_eqb_of_perm; reflexivity.
   - (* Touch *)
     destruct (st_heap st x f) eqn:Q.
-    + set (st1 := mkState (st_heap st) (st_hooks st) (st_regs st) (S (st_next st))).
+    + set (st1 := mkState (st_traits st) (st_heap st) (st_hooks st) (st_regs st) (S (st_next st))).
       assert (Permutation (st_heap st1 x f) ([] ++ [])) as Ho by (cbn; rewrite Q; reflexivity).
       pose proof (change_law st1 (Touch x f) x f [st_next st] [] [st_next st] [] true false Hinv Ho
-                    (Permutation_refl _) (edge_acyclic_b_spec _ _ _ _ _ Hyp) eq_refl) as C.
-      destruct C as [L [D RG]]; [reflexivity|discriminate| |].
+                    (Permutation_refl _) (edge_acyclic_b_spec _ _ _ _ _ _ Hyp) eq_refl) as C.
+      destruct C as [L [D [RG TR]]]; [reflexivity|discriminate| |].
       { intros k0. cbn [call_ok]. rewrite !Nat.eqb_refl. cbn [andb st_heap st1]. rewrite Q, upd_same.
         rewrite !perm_eqb_of_perm; reflexivity. }
-      split; [exact L|]. split; [exact D|]. cbn [law_regs]. rewrite RG. reflexivity.
-    + cbn [quiet fst snd ob_delta apply_delta fold_left law_regs ob_out]. split; [|split; reflexivity].
+      split; [exact L|]. split; [exact D|]. split; [cbn [law_regs]; rewrite RG; reflexivity|cbn [law_traits]; rewrite TR; reflexivity].
+    + cbn [quiet fst snd ob_delta apply_delta fold_left law_regs law_traits ob_out]. split; [|split; [reflexivity|split; reflexivity]].
       apply (quiet_law st _ x f); [reflexivity|]. cbn [classify]. discriminate.
   - (* Splice *)
     destruct (spliced_out (st_heap st c f) i n ++ vs) eqn:Q.
-    + cbn [quiet fst snd ob_delta apply_delta fold_left law_regs ob_out]. split; [|split; reflexivity].
+    + cbn [quiet fst snd ob_delta apply_delta fold_left law_regs law_traits ob_out]. split; [|split; [reflexivity|split; reflexivity]].
       apply (quiet_law st _ c f); [reflexivity|]. cbn [classify]. rewrite list_eqb_refl. discriminate.
     + pose proof (change_law st (Splice c f i n vs) c f (splice (st_heap st c f) i n vs)
                    (spliced_out (st_heap st c f) i n) vs
                    (firstn i (st_heap st c f) ++ skipn n (skipn i (st_heap st c f))) false true Hinv
-                   (splice_old _ _ _) (splice_new _ _ _ _) (edge_acyclic_b_spec _ _ _ _ _ Hyp) eq_refl) as C.
-      destruct C as [L [D RG]].
+                   (splice_old _ _ _) (splice_new _ _ _ _) (edge_acyclic_b_spec _ _ _ _ _ _ Hyp) eq_refl) as C.
+      destruct C as [L [D [RG TR]]].
       * discriminate.
       * intros _. cbn [classify]. destruct (list_eqb _ _); discriminate.
       * intros k0. cbn [call_ok]. rewrite !Nat.eqb_refl. cbn [andb]. rewrite upd_same.
         apply perm_eqb_of_perm. apply splice_delta.
-      * split; [exact L|]. split; [exact D|]. cbn [law_regs]. rewrite RG. reflexivity.
+      * split; [exact L|]. split; [exact D|]. split; [cbn [law_regs]; rewrite RG; reflexivity|cbn [law_traits]; rewrite TR; reflexivity].
   - (* Probe *)
     assert (Permutation (st_heap st x 0) (st_heap st x 0 ++ [])) as Ho by (rewrite app_nil_r; reflexivity).
     pose proof (change_law st (Probe x) x 0 (st_heap st x 0) [] [] (st_heap st x 0) false false Hinv Ho Ho
-                  (edge_acyclic_b_spec _ _ _ _ _ Hyp) eq_refl) as C.
-    destruct C as [L [D RG]].
+                  (edge_acyclic_b_spec _ _ _ _ _ _ Hyp) eq_refl) as C.
+    destruct C as [L [D [RG TR]]].
     + discriminate.
     + intros _. cbn [classify]. discriminate.
     + intros k0. cbn [call_ok]. rewrite !Nat.eqb_refl. reflexivity.
-    + split; [exact L|]. split; [exact D|]. cbn [law_regs]. rewrite RG. reflexivity.
+    + split; [exact L|]. split; [exact D|]. split; [cbn [law_regs]; rewrite RG; reflexivity|cbn [law_traits]; rewrite TR; reflexivity].
 Qed.
 
 Lemma law_hist_model : forall ops st i, inv st -> hyps st ops = true ->
-  law_hist i (st_heap st) (st_regs st) (run st ops) = [].
+  law_hist i (st_traits st) (st_heap st) (st_regs st) (run st ops) = [].
 Proof.
   induction ops as [|o ops IH]; intros st i I Hy; cbn [run]; [reflexivity|].
   cbn [hyps] in Hy. apply andb_true_iff in Hy. destruct Hy as [H1 H2].
-  pose proof (step_law st o I H1) as [L [D RG]].
+  pose proof (step_law st o I H1) as [L [D [RG TR]]].
   pose proof (step_spec st o I H1) as S. unfold step_ok in S.
   destruct (step st o) as [st' ob]. cbn [fst snd] in *. cbn [law_hist].
-  rewrite L. cbn [map app]. rewrite D, RG. apply IH; tauto.
+  rewrite L. cbn [map app]. rewrite D, RG, TR. apply IH; tauto.
 Qed.
